@@ -58,6 +58,11 @@ def run(rep, tier, seed, replay):
         m = mo[i] if i < len(mo) else "MISSING"
         full = io[i] if i < len(io) else "MISSING"
         o = full.partition(" || ")[0]
+        if case.startswith("G "):       # no model side: the oracle judges
+            if not full.startswith("SKIPPED-AFTER-HANGS"):
+                for kl, text in G.oracle(case, full):
+                    rep.violation(text, case=case, model=m, impl=full, theorem="property oracle C09 (beyond 4 GiB)", klass=kl)
+            continue
         # the model does not distinguish the race variants
         if " c1 " in o and ("1" in o.split(" || ")[0]):
             completed += 1
@@ -73,10 +78,6 @@ def run(rep, tier, seed, replay):
         if full.startswith("SKIPPED-AFTER-HANGS"):
             continue
         viol = G.oracle(case, full)
-        if case.startswith("G "):       # no model side: the oracle judges
-            for kl, text in viol:
-                rep.violation(text, case=case, model=m, impl=full, theorem="property oracle C09 (beyond 4 GiB)", klass=kl)
-            continue
         if m != o:
             mism += 1
             if viol:
